@@ -146,10 +146,15 @@ def pox_decode(raw40):
   return m
 
 
-def pox_matches(pm, frame, in_port):
+def pox_packet_match(frame, in_port):
   of, pkt, _ = _POX
-  packet_match = of.ofp_match.from_packet(pkt.ethernet(frame), in_port, spec_frags=True)
-  return bool(pm.matches_with_wildcards(packet_match, consider_other_wildcards=False))
+  return of.ofp_match.from_packet(pkt.ethernet(frame), in_port, spec_frags=True)
+
+
+def pox_matches(pm, frame, in_port, pkm=None):
+  if pkm is None:
+    pkm = pox_packet_match(frame, in_port)
+  return bool(pm.matches_with_wildcards(pkm, consider_other_wildcards=False))
 
 
 def _widen(m, f):
@@ -181,26 +186,26 @@ def _widen_all(m, fields):
   return m
 
 
-def _pox_says(m, frame, in_port):
+def _pox_says(m, pkm):
   try:
-    return pox_matches(pox_decode(M.pack_match(m)), frame, in_port)
+    return pox_matches(pox_decode(M.pack_match(m)), None, None, pkm)
   except Exception:
     return None
 
 
-def _blame_refused(m, frame, in_port):
+def _blame_refused(m, pkm):
   """POX refuses a frame the reference accepts: the smallest set of fields (dependent fields first) whose
   additional wildcarding makes POX accept it."""
   done = []
   for f in _BLAME_ORDER:
     done.append(f)
-    if _pox_says(_widen_all(m, done), frame, in_port):
+    if _pox_says(_widen_all(m, done), pkm):
       break
   else:
     return []
   for f in list(done):
     rest = [x for x in done if x != f]
-    if _pox_says(_widen_all(m, rest), frame, in_port):
+    if _pox_says(_widen_all(m, rest), pkm):
       done = rest
   return [f for f in M.MATCH_FIELDS if f in done]
 
@@ -211,7 +216,7 @@ def _mismatch_key(m, frame, in_port, pktf, ref, clause="match"):
   protocol value in a wildcarded prerequisite field."""
   blame = None
   if ref:
-    b = _blame_refused(m, frame, in_port)
+    b = _blame_refused(m, pox_packet_match(frame, in_port))
     blame = b[0] if b else None
   else:
     e = M.effective(m)
@@ -540,7 +545,7 @@ def _spec(draw):
   elif l3 == "arp":
     s.update({"op": draw(st.sampled_from([1, 2, 3, 4, 255])), "spa": draw(_u32), "tpa": draw(_u32)})
   else:
-    s["etype"] = draw(st.sampled_from([0x88b5, 0x86dd, 0x88cc, 0x0600, 0xffff, 0x8847, 0x9000]))
+    s["etype"] = draw(st.sampled_from([0x88b5, 0x86dd, 0x88b6, 0x0600, 0xffff, 0x22f0, 0x9000]))
   return s
 
 
